@@ -504,7 +504,7 @@ Proof.
   - destruct S as (D & A & _ & Hh & _). destruct bs as [|x t]; [discriminate|].
     apply IH in H. destruct H as (D2 & A2 & N & Hh2). repeat split; auto; try congruence.
     rewrite A2, <- app_assoc, A. reflexivity.
-  - destruct S as (D & Hh & _). apply IH in H. destruct H as (D2 & A2 & N & Hh2). rewrite D in *. auto.
+  - destruct S as (D & Hh & _). apply IH in H. destruct H as (D2 & A2 & N & Hh2). rewrite D in *. repeat split; auto.
   - discriminate.
 Qed.
 
@@ -590,13 +590,191 @@ Section UpdateIoProofs.
       assert (TR : skipn need got ++ skipn (pos (wdev w1b)) (data (wdev w1b)) = rest).
       { destruct (read_prefix _ _ _ R) as (m & Em). fold s in Em.
         assert (Lm : need = length m) by (unfold need; rewrite Em, app_length; lia).
-        rewrite <- (skipn_all2 got (n := need)) at 1 by lia.
-        assert (skipn need (got ++ skipn (pos (wdev w1b)) (data (wdev w1b))) = skipn need got ++ skipn (pos (wdev w1b)) (data (wdev w1b))) as <-.
+        assert (E : skipn need (got ++ skipn (pos (wdev w1b)) (data (wdev w1b))) = skipn need got ++ skipn (pos (wdev w1b)) (data (wdev w1b))).
         { rewrite skipn_app. replace (need - length got)%nat with 0%nat by lia. reflexivity. }
-        rewrite A1, Em, Lm. rewrite skipn_app, skipn_all, Nat.sub_diag. reflexivity. }
+        rewrite <- E, A1, Em, Lm. rewrite skipn_app, skipn_all, Nat.sub_diag. reflexivity. }
       rewrite TR in RW. rewrite RW, E2, D2, D1.
       assert (DP : data (put (bytes ++ rest) {| data := []; pos := 0 |}) = bytes ++ rest).
       { destruct (bytes ++ rest) as [|x t] eqn:EB; [reflexivity|]. unfold put. cbn. now rewrite app_nil_r. }
       rewrite DP. reflexivity.
   Qed.
 End UpdateIoProofs.
+
+(* ================================================================ no panic: every loop has fuel to spare *)
+Lemma bw_write_progress cap b bytes w x b1 w1 : bw_write cap b bytes w = (x, b1, w1) ->
+  (plen w1 <= plen w)%nat /\
+  match x with
+  | WOk n => n = length bytes \/ ((plen w1 < plen w)%nat /\ (n <= length bytes)%nat)
+  | WIntr => (plen w1 < plen w)%nat
+  | WFail => True
+  | WFuel => False
+  end.
+Proof.
+  unfold bw_write. destruct (length bytes <? cap - length b)%nat.
+  - intros H. inversion H; subst. auto.
+  - assert (DW : forall bb ww, (plen ww <= plen w)%nat ->
+              (match dev_write bytes ww with
+               | (IOk n, w2) => (WOk n, bb, w2) | (IErr true, w2) => (WIntr, bb, w2) | (IErr false, w2) => (WFail, bb, w2) end) = (x, b1, w1) ->
+              (plen w1 <= plen w)%nat /\
+              match x with
+              | WOk n => n = length bytes \/ ((plen w1 < plen w)%nat /\ (n <= length bytes)%nat)
+              | WIntr => (plen w1 < plen w)%nat
+              | WFail => True
+              | WFuel => False
+              end).
+    { intros bb ww Lw H. pose proof (dev_write_spec bytes ww) as S.
+      destruct (dev_write bytes ww) as [[n|[|]] w2]; inversion H; subst.
+      - destruct S as (_ & Ln & P & Z). split; [lia|]. destruct (plen ww) eqn:E; [left; auto|right; lia].
+      - destruct S as (_ & P & Pos). lia.
+      - destruct S as (_ & P). split; [lia|exact I]. }
+    destruct (cap - length b <? length bytes)%nat.
+    + pose proof (flush_buf_no_panic b w) as NP. destruct (bw_flush_buf b w) as [[r bf] wf] eqn:F.
+      pose proof (write_loop_plen _ _ _ _ _ _ F) as PL. destruct r as [[]|e|k]; cbn in NP; try discriminate.
+      * destruct (cap <=? length bytes)%nat; [apply DW; exact PL|]. intros H. inversion H; subst. auto.
+      * intros H. inversion H; subst. auto.
+    + destruct (cap <=? length bytes)%nat; [apply DW; lia|]. intros H. inversion H; subst. auto.
+Qed.
+
+Lemma bw_write_loop_fuel fuel cap : forall b bytes w, (plen w < fuel)%nat ->
+  is_panic (fst (fst (bw_write_loop fuel cap b bytes w))) = false.
+Proof.
+  induction fuel as [|f IH]; intros b bytes w L; [lia|]. destruct bytes as [|x t]; [reflexivity|].
+  cbn [bw_write_loop]. destruct (bw_write cap b (x :: t) w) as [[r b1] w1] eqn:E.
+  apply bw_write_progress in E. destruct E as [PL E]. destruct r as [n| | |]; try reflexivity; try contradiction.
+  - destruct n as [|n]; [reflexivity|]. destruct E as [E|[E _]].
+    + rewrite E, skipn_all. destruct f; reflexivity.
+    + apply IH. lia.
+  - apply IH. lia.
+Qed.
+
+Lemma run_wop_no_panic st op b w : is_panic (fst (fst (run_wop st op b w))) = false.
+Proof.
+  destruct st as [|cap]; destruct op; cbn [run_wop].
+  - pose proof (write_all_no_panic bytes w). destruct (write_all bytes w); auto.
+  - pose proof (write_all_no_panic bytes w). destruct (write_all bytes w); auto.
+  - pose proof (lift_no_panic (dev_seek p w)). destruct (lift (dev_seek p w)) as [[a|e|k] w1]; auto.
+  - pose proof (lift_no_panic (dev_seek_cur w)). destruct (lift (dev_seek_cur w)) as [[a|e|k] w1]; auto.
+  - pose proof (lift_no_panic (dev_flush w)). destruct (lift (dev_flush w)) as [r w1]; auto.
+  - unfold bw_write_all. destruct (length bytes <? cap - length b)%nat; [reflexivity|].
+    destruct (cap - length b <? length bytes)%nat.
+    + pose proof (flush_buf_no_panic b w) as NP. destruct (bw_flush_buf b w) as [[r bf] wf]. destruct r as [[]|e|k]; cbn in NP |- *; auto.
+      destruct (cap <=? length bytes)%nat; [|reflexivity].
+      pose proof (write_all_no_panic bytes wf). destruct (write_all bytes wf); auto.
+    + destruct (cap <=? length bytes)%nat; [|reflexivity].
+      pose proof (write_all_no_panic bytes w). destruct (write_all bytes w); auto.
+  - apply bw_write_loop_fuel. unfold wfuel, plen. lia.
+  - unfold bw_seek. pose proof (flush_buf_no_panic b w) as NP. destruct (bw_flush_buf b w) as [[r bf] wf]. destruct r as [[]|e|k]; cbn in NP |- *; auto.
+    pose proof (lift_no_panic (dev_seek p wf)). destruct (lift (dev_seek p wf)) as [[a|e|k] w1]; auto.
+  - unfold bw_seek_cur. pose proof (flush_buf_no_panic b w) as NP. destruct (bw_flush_buf b w) as [[r bf] wf]. destruct r as [[]|e|k]; cbn in NP |- *; auto.
+    pose proof (lift_no_panic (dev_seek_cur wf)). destruct (lift (dev_seek_cur wf)) as [[a|e|k] w1]; auto.
+  - unfold bw_flush. pose proof (flush_buf_no_panic b w) as NP. destruct (bw_flush_buf b w) as [[r bf] wf]. destruct r as [[]|e|k]; cbn in NP |- *; auto.
+    pose proof (lift_no_panic (dev_flush wf)). destruct (lift (dev_flush wf)) as [r w1]; auto.
+Qed.
+
+Lemma run_wops_no_panic st p : forall b w, is_panic (fst (fst (run_wops st p b w))) = false.
+Proof.
+  induction p as [|op r IH]; intros b w; [reflexivity|]. cbn [run_wops].
+  pose proof (run_wop_no_panic st op b w) as NP. destruct (run_wop st op b w) as [[x b1] w1]. destruct x; cbn in NP |- *; auto.
+Qed.
+
+(* no program, stack, or schedule makes the writer side panic *)
+Theorem run_writer_no_panic st p w : is_panic (fst (run_writer st p w)) = false.
+Proof.
+  unfold run_writer. pose proof (run_wops_no_panic st p [] w) as NP. destruct (run_wops st p [] w) as [[r b] w1].
+  destruct st; [exact NP|]. destruct (bw_flush_buf b w1) as [[r2 b2] w2]. exact NP.
+Qed.
+
+Definition rlen (w : world) : nat := length (pending (sr (wsched w))).
+
+Lemma fill_until_fuel fuel cap need : forall got w, (need - length got + rlen w < fuel)%nat ->
+  is_panic (fst (fill_until fuel cap need got w)) = false.
+Proof.
+  induction fuel as [|f IH]; intros got w L; [lia|]. cbn [fill_until].
+  destruct (need <=? length got)%nat eqn:C; [reflexivity|]. apply Nat.leb_gt in C.
+  pose proof (dev_read_spec cap w) as S. destruct (dev_read cap w) as [[bs|[|]] w1].
+  - destruct S as (_ & _ & _ & _ & P & _). destruct bs as [|x t]; [reflexivity|].
+    apply IH. unfold rlen in *. rewrite app_length. cbn [length]. lia.
+  - destruct S as (_ & _ & P & Pos). apply IH. unfold rlen in *. specialize (Pos eq_refl). lia.
+  - reflexivity.
+Qed.
+
+Lemma read_to_end_fuel fuel cap : forall acc w, (length (data (wdev w)) - pos (wdev w) + rlen w < fuel)%nat ->
+  is_panic (fst (read_to_end fuel cap acc w)) = false.
+Proof.
+  induction fuel as [|f IH]; intros acc w L; [lia|]. cbn [read_to_end].
+  pose proof (dev_read_spec cap w) as S. destruct (dev_read cap w) as [[bs|[|]] w1].
+  - destruct S as (D & A & _ & _ & P & _). destruct bs as [|x t]; [reflexivity|].
+    apply IH. apply (f_equal (@length N)) in A. rewrite app_length, !skipn_length in A. cbn [length] in A.
+    unfold rlen in *. rewrite D in *. lia.
+  - destruct S as (D & _ & P & Pos). apply IH. unfold rlen in *. specialize (Pos eq_refl). rewrite D. lia.
+  - reflexivity.
+Qed.
+
+Section UpdateIoNoPanic.
+  Variable payload : Type.
+  Variable psize : payload -> N.
+  Variable ser : payload -> list N.
+  Variable uclass : okind -> payload -> option N.
+  Variable read_blocks : list N -> res (blocklist payload * list N).
+  Hypothesis ser_len : forall p, lenN (ser p) = psize p.
+
+  (* update_file does not panic under any schedule (fixed or not), unless the block reader or the
+     callback does *)
+  Theorem update_file_io_no_panic fixed cap ck edit rb w1 w2 :
+    (forall s, is_panic (read_blocks s) = false) -> (forall bl, is_panic (edit bl) = false) ->
+    is_panic (fst (fst (update_file_io payload psize ser uclass read_blocks fixed cap ck edit rb w1 w2))) = false.
+  Proof.
+    intros HR HE. unfold update_file_io. unfold dev_seek_cur.
+    pose proof (dev_seek_sr (pos (wdev w1)) w1) as SR.
+    destruct (dev_seek (pos (wdev w1)) w1) as [[start|i] w1a]; [|reflexivity]. cbn [snd] in SR.
+    specialize (HR (skipn start (data (wdev w1a)))).
+    destruct (read_blocks (skipn start (data (wdev w1a)))) as [[bl rest]|e|k]; cbn [fst snd is_panic] in HR |- *; auto.
+    set (need := (length (skipn start (data (wdev w1a))) - length rest)%nat).
+    assert (FF : is_panic (fst (fill_until (rfuel need w1a) cap need [] w1a)) = false)
+      by (apply fill_until_fuel; unfold rfuel, rlen; cbn [length]; lia).
+    destruct (fill_until (rfuel need w1a) cap need [] w1a) as [[got|e|k] w1b]; cbn [fst snd is_panic] in FF |- *; auto; try discriminate.
+    specialize (HE bl). destruct (edit bl) as [bl1|e|k]; cbn [fst snd is_panic] in HE |- *; auto.
+    pose proof (write_blocks_no_panic payload psize ser uclass ser_len bl1) as P1.
+    destruct (write_blocks payload psize ser uclass bl1) as [dry|e|k]; cbn [fst snd is_panic rmap bind] in P1 |- *; auto.
+    destruct (update_plan payload (N.of_nat need) (lenN dry) bl1) as [bl2|bl2];
+      pose proof (write_blocks_no_panic payload psize ser uclass ser_len bl2) as P2;
+      destruct (write_blocks payload psize ser uclass bl2) as [bytes|e|k]; cbn [fst snd is_panic] in P2 |- *; auto.
+    - destruct (dev_seek start w1b) as [[p|i] w1c]; [|reflexivity].
+      pose proof (run_writer_no_panic (SBuf cap) (map WWriteAll (ck bytes) ++ (if fixed then [WFlush] else [])) w1c) as NP.
+      destruct (run_writer _ _ w1c) as [r w1d]. destruct r; cbn [fst snd is_panic rmap bind] in NP |- *; auto.
+    - assert (RF : is_panic (fst (read_to_end (rfuel (length (data (wdev w1b))) w1b) cap (skipn need got) w1b)) = false)
+        by (apply read_to_end_fuel; unfold rfuel, rlen; lia).
+      destruct (read_to_end _ cap (skipn need got) w1b) as [[tail|e|k] w1c]; cbn [fst snd is_panic] in RF |- *; auto; try discriminate.
+      destruct rb; [|reflexivity].
+      pose proof (run_writer_no_panic SRaw [WWriteAll (bytes ++ tail)] w2) as NP.
+      destruct (run_writer SRaw _ w2) as [r w2a]. destruct r; cbn [fst snd is_panic rmap bind] in NP |- *; auto.
+  Qed.
+End UpdateIoNoPanic.
+
+(* F-C13a on the old in-place path (no checked flush): every write fails, Ok(false), file unchanged *)
+Definition demo_before : list (oblock dpayload) := [OPadding 20].
+Definition demo_after : list (oblock dpayload) := [OOther KApplication (6, None); OPadding 20].
+Definition demo_io (fixed : bool) (sc : sched) :=
+  let rd := fun s : list N => Ok ({| bl_si := (34, None); bl_blocks := demo_before |}, skipn 66 s) in
+  update_file_io dpayload fst (fun p => repeat 0 (N.to_nat (fst p))) (fun _ p => snd p) rd fixed 8192 whole
+    (fun _ => Ok {| bl_si := (34, None); bl_blocks := demo_after |}) true
+    {| wdev := {| data := repeat 9 80; pos := 0 |}; wsched := sc |}
+    {| wdev := {| data := []; pos := 0 |}; wsched := no_faults |}.
+Definition all_writes_fail : sched := {| sw := {| pending := []; dflt_err := true |}; sf := quiet; ss := quiet; sr := quiet |}.
+
+Example update_inplace_unfixed_refuted :
+  let '(r, w1, _) := demo_io false all_writes_fail in
+  r = Ok false /\ data (wdev w1) = repeat 9 80 /\
+  let '(r0, w0, _) := demo_io false no_faults in r0 = Ok false /\ data (wdev w0) <> repeat 9 80.
+Proof. vm_compute. repeat split; discriminate. Qed.
+Example update_inplace_fixed_same_schedule : fst (fst (demo_io true all_writes_fail)) = Err EIo.
+Proof. vm_compute. reflexivity. Qed.
+
+(* read errors are never swallowed: the two read loops (the only consumers of read calls) stop with Err at
+   the very call that fails with a non-transient error *)
+Lemma fill_until_read_error fuel cap need got w w1 : (length got < need)%nat ->
+  dev_read cap w = (IErr false, w1) -> fill_until (S fuel) cap need got w = (Err EIo, w1).
+Proof. intros L E. cbn [fill_until]. apply Nat.leb_gt in L. now rewrite L, E. Qed.
+Lemma read_to_end_read_error fuel cap acc w w1 :
+  dev_read cap w = (IErr false, w1) -> read_to_end (S fuel) cap acc w = (Err EIo, w1).
+Proof. intros E. cbn [read_to_end]. now rewrite E. Qed.
